@@ -381,6 +381,9 @@ pub struct EqCase {
     pub hist: Hist,
     /// (index of the inserted term, chain of mutations applied to it)
     pub probes: Vec<(u16, Vec<Mutation>)>,
+    /// inserted terms (by index choice) of which every copy with permuted free names is a candidate as well
+    #[serde(default)]
+    pub all_perms_of: Vec<u16>,
 }
 
 /// candidate = term with some subterm's free names permuted / a subterm exchanged for another inserted (sub)term /
@@ -468,6 +471,22 @@ fn run_eq_l<L: Language>(c: &EqCase, obs: &mut Obs) -> Result<(), String> {
         if cands.len() < 10 && t != terms[ti] && !t.has_same_node_shadowing() && t.size() <= 30 && !cands.iter().any(|(_, u)| *u == t) {
             cands.push((ti, t));
         }
+    }
+    // systematic candidates: every permutation of the free names of a chosen inserted term (2-4 names)
+    for i in &c.all_perms_of {
+        let ti = idx(*i, terms.len());
+        let fv: Vec<Name> = terms[ti].fv().into_iter().collect();
+        if !(2..=4).contains(&fv.len()) || terms[ti].size() > 12 {
+            continue;
+        }
+        for img in crate::props::c10::all_perms_k(fv.len()) {
+            let m: BTreeMap<Name, Name> = fv.iter().enumerate().map(|(a, n)| (*n, fv[img[a] as usize])).collect();
+            let t = crate::hist::unfreshen(&terms[ti].rename_free(&m));
+            if cands.len() < 40 && t != terms[ti] && !t.has_same_node_shadowing() && !cands.iter().any(|(_, u)| *u == t) {
+                cands.push((ti, t));
+            }
+        }
+        obs.label("all-permuted-copies-probed");
     }
     if cands.is_empty() {
         return Ok(());
@@ -575,13 +594,13 @@ fn eq_strategy(lang: LangId, max_ops: usize) -> BoxedStrategy<EqCase> {
     let mut cfg = HistCfg::for_lang(lang);
     cfg.max_ops = max_ops;
     let mutation = (any::<u16>(), any::<u8>(), proptest::collection::vec(any::<u16>(), 0..6));
-    (hist_strategy(cfg), proptest::collection::vec((any::<u16>(), proptest::collection::vec(mutation, 1..3)), 6..16))
-        .prop_map(|(hist, probes)| EqCase { hist, probes })
+    (hist_strategy(cfg), proptest::collection::vec((any::<u16>(), proptest::collection::vec(mutation, 1..3)), 6..16), proptest::collection::vec(any::<u16>(), 0..3))
+        .prop_map(|(hist, probes, all_perms_of)| EqCase { hist, probes, all_perms_of })
         .boxed()
 }
 
 fn render_eq(c: &EqCase) -> String {
-    format!("{} probes={:?}", c.hist.render(), c.probes)
+    format!("{} probes={:?} all-permuted-copies-of={:?}", c.hist.render(), c.probes, c.all_perms_of)
 }
 
 pub fn property(tier: Tier) -> Property {
